@@ -307,6 +307,9 @@ enum TPlace {
 struct TProbe {
 	place: TPlace,
 	create_gap: usize,
+	/// the gap (at or after creation) in which the track that holds the probe is paused; commands
+	/// to resources on a paused track are still read at every callback
+	pause_gap: Option<usize>,
 	/// number of tokens written in each gap (gaps before creation write to the not yet added probe)
 	writes: Vec<usize>,
 }
@@ -327,7 +330,9 @@ fn gen_tokens(src: &mut Src) -> TCase {
 		let place = src.pick(&[TPlace::SubTrackEffect, TPlace::MainEffect, TPlace::SoundOnMain, TPlace::SoundOnNewTrack, TPlace::SoundOnOldTrack, TPlace::Modulator]);
 		let create_gap = if place == TPlace::MainEffect { 0 } else { src.index(n) };
 		let writes = (0..n).map(|_| src.weighted(&[3, 3, 2, 1, 1])).collect();
-		probes.push(TProbe { place, create_gap, writes });
+		let on_track = matches!(place, TPlace::SubTrackEffect | TPlace::SoundOnNewTrack | TPlace::SoundOnOldTrack);
+		let pause_gap = if on_track && src.chance(1, 3) { Some(src.usize_in(create_gap, n - 1)) } else { None };
+		probes.push(TProbe { place, create_gap, pause_gap, writes });
 	}
 	TCase {
 		buf: src.pick(&[16usize, 1, 64]),
@@ -358,7 +363,8 @@ fn run_tokens(c: &TCase) -> Result<Outcome, Failure> {
 	}
 	let mut mgr = manager(RATE, c.buf, Capacities::default(), main);
 	let mut old_track = mgr.add_sub_track(TrackBuilder::new()).map_err(|_| Failure::simple("setup", "track"))?;
-	let mut keep_tracks = vec![];
+	let mut probe_track: Vec<Option<kira::track::TrackHandle>> = (0..c.probes.len()).map(|_| None).collect();
+	let mut paused_track = false;
 	// expected reads per probe
 	let mut expect: Vec<Vec<(u64, Token)>> = vec![vec![]; c.probes.len()];
 	let mut last_unread: Vec<Option<Token>> = c.probes.iter().enumerate().map(|(i, p)| (p.place == TPlace::MainEffect).then(|| token(1_000_000, i as u64))).collect();
@@ -385,7 +391,7 @@ fn run_tokens(c: &TCase) -> Result<Outcome, Failure> {
 				match p.place {
 					TPlace::SubTrackEffect => {
 						let t = mgr.add_sub_track(TrackBuilder::new().with_effect(TokEffectBuilder(core))).map_err(|_| Failure::simple("setup", "track"))?;
-						keep_tracks.push(t);
+						probe_track[i] = Some(t);
 					}
 					TPlace::SoundOnMain => {
 						mgr.play(TokSoundData(core)).map_err(|_| Failure::simple("setup", "play"))?;
@@ -396,7 +402,7 @@ fn run_tokens(c: &TCase) -> Result<Outcome, Failure> {
 					TPlace::SoundOnNewTrack => {
 						let mut t = mgr.add_sub_track(TrackBuilder::new()).map_err(|_| Failure::simple("setup", "track"))?;
 						t.play(TokSoundData(core)).map_err(|_| Failure::simple("setup", "play"))?;
-						keep_tracks.push(t);
+						probe_track[i] = Some(t);
 					}
 					TPlace::Modulator => {
 						mgr.add_modulator(TokModulatorBuilder(core)).map_err(|_| Failure::simple("setup", "modulator"))?;
@@ -408,6 +414,14 @@ fn run_tokens(c: &TCase) -> Result<Outcome, Failure> {
 				do_writes(&mut writers, &mut last_unread, &mut seq, &mut burst);
 			}
 			early |= g <= p.create_gap && p.writes[g] > 0;
+			if p.pause_gap == Some(g) {
+				paused_track = true;
+				match (&mut probe_track[i], p.place) {
+					(Some(t), _) => t.pause(tween_frames(0)),
+					(None, TPlace::SoundOnOldTrack) => old_track.pause(tween_frames(0)),
+					_ => {}
+				}
+			}
 		}
 		let cb = mgr.backend_mut().callback(c.frames[g], 2);
 		if let Some(p) = &cb.guard.panic {
@@ -448,7 +462,10 @@ fn run_tokens(c: &TCase) -> Result<Outcome, Failure> {
 	if early {
 		classes.push("command-before-first-callback");
 	}
-	Ok(Outcome { nontrivial: burst || early, classes })
+	if paused_track {
+		classes.push("command-to-a-resource-on-a-paused-track");
+	}
+	Ok(Outcome { nontrivial: burst || early || paused_track, classes })
 }
 
 // ------------------------------------------------------------------------------------------
@@ -1089,7 +1106,7 @@ impl Property for C07 {
 		"C07"
 	}
 	fn rule(&self) -> &'static str {
-		"each case is one of seven generated scenario families run through the real manager (device rate 8192 Hz, internal buffer 1..128, callback sizes 1..250). V: volume setters with linear tweens of 0..2000 frames on four resources of one signal path (static DC sound, volume-control effect, sub-track, main track), 0..5 commands per gap with bursts on one resource, the path created before the first or a later callback with commands in the same gap; the output is compared frame by frame (1e-4) with a reference that applies the last command of each kind once at the start of the next callback. T: probe Sound / Effect / Modulator objects built on kira::command read a token reader once per on_start_processing; tokens are written 0..4 per gap, also before the probe is added (main-track effect, sub-track effect, sound on main / existing / just-created track, modulator); the log of reads must be exactly the last token of every burst, once, in the callback that follows, and on_start_processing must run once per callback from the first one. P: a static ramp sound receives bursts of seek_to / seek_by: the audible index must jump exactly once, in the first 4 frames of the next callback, by the last command's amount (3 frames slack), and never otherwise; a streaming sound receives seek and loop-region bursts while its decoder gets 0..130 steps per gap (hook H2): the indices it delivers must equal a reference transport that applies the last command of each kind at its next step. K: clock start / pause / stop / set_speed bursts against a reference clock (reported time and ticking flag after every callback) and tweener set() bursts observed through a parameter linked to it (1e-9). R: a writer thread publishes 200..20000 self-checking values through one CommandWriter while this thread polls the reader with generated spin patterns: values read are untorn, strictly newer than the previous one, and the last write is read. H: a gameplay thread plays a DC sound and raises sound and track volume monotonically while this thread runs callbacks: the output never decreases, stays in range, and ends at exactly the last written value. S: for each of 43 setters (sound / streaming sound volume, panning, playback rate; track volume and send; send-track and main volume; spatial position, strength, volume; listener position and orientation; every setter of filter, EQ, delay, reverb, compressor, distortion, panning and volume control; tweener set; LFO amplitude, offset, frequency, waveform) a scene built with value A receives the setter with B - alone or as the last of a burst, before the first or a later callback, instantly or with a tween of up to 4096 frames - and, once the tween and the effect memory have run out (0.75 s, reverb 3 s), its steady state (RMS, mean, sign changes per channel over 4096 frames; 1 %, LFO 6 %) must equal that of a scene built with B; the case counts only if the same measure tells A and B apart. Non-trivial = a burst of one kind within a gap, a command while a tween is active, a command before the resource's first callback, a decoder step later than the next callback, (R, H) reads / callbacks that really interleaved with the writes, or (S) a setter whose two values are told apart; distinct = distinct decoded choices."
+		"each case is one of seven generated scenario families run through the real manager (device rate 8192 Hz, internal buffer 1..128, callback sizes 1..250). V: volume setters with linear tweens of 0..2000 frames on four resources of one signal path (static DC sound, volume-control effect, sub-track, main track), 0..5 commands per gap with bursts on one resource, the path created before the first or a later callback with commands in the same gap; the output is compared frame by frame (1e-4) with a reference that applies the last command of each kind once at the start of the next callback. T: probe Sound / Effect / Modulator objects built on kira::command read a token reader once per on_start_processing; tokens are written 0..4 per gap, also before the probe is added (main-track effect, sub-track effect, sound on main / existing / just-created track, modulator), and a third of the tracks that hold a probe are paused at some gap; the log of reads must be exactly the last token of every burst, once, in the callback that follows, and on_start_processing must run once per callback from the first one. P: a static ramp sound receives bursts of seek_to / seek_by: the audible index must jump exactly once, in the first 4 frames of the next callback, by the last command's amount (3 frames slack), and never otherwise; a streaming sound receives seek and loop-region bursts while its decoder gets 0..130 steps per gap (hook H2): the indices it delivers must equal a reference transport that applies the last command of each kind at its next step. K: clock start / pause / stop / set_speed bursts against a reference clock (reported time and ticking flag after every callback) and tweener set() bursts observed through a parameter linked to it (1e-9). R: a writer thread publishes 200..20000 self-checking values through one CommandWriter while this thread polls the reader with generated spin patterns: values read are untorn, strictly newer than the previous one, and the last write is read. H: a gameplay thread plays a DC sound and raises sound and track volume monotonically while this thread runs callbacks: the output never decreases, stays in range, and ends at exactly the last written value. S: for each of 43 setters (sound / streaming sound volume, panning, playback rate; track volume and send; send-track and main volume; spatial position, strength, volume; listener position and orientation; every setter of filter, EQ, delay, reverb, compressor, distortion, panning and volume control; tweener set; LFO amplitude, offset, frequency, waveform) a scene built with value A receives the setter with B - alone or as the last of a burst, before the first or a later callback, instantly or with a tween of up to 4096 frames - and, once the tween and the effect memory have run out (0.75 s, reverb 3 s), its steady state (RMS, mean, sign changes per channel over 4096 frames; 1 %, LFO 6 %) must equal that of a scene built with B; the case counts only if the same measure tells A and B apart. Non-trivial = a burst of one kind within a gap, a command while a tween is active, a command before the resource's first callback, a decoder step later than the next callback, (R, H) reads / callbacks that really interleaved with the writes, or (S) a setter whose two values are told apart; distinct = distinct decoded choices."
 	}
 	fn assumptions(&self) -> Vec<String> {
 		vec![
